@@ -193,3 +193,17 @@ func init() {
 	mut("C04", "multiproof copy of the siacoin leaf diverges", true, "leaf-sibling|leaf/siacoin",
 		Edit{"types/multiproof.go", "hashAll(\"leaf/siacoin\", e.ID, V2SiacoinOutput(e.SiacoinOutput), e.MaturityHeight)", "hashAll(\"leaf/siacoin\", e.ID, e.MaturityHeight, V2SiacoinOutput(e.SiacoinOutput))"})
 }
+
+func init() {
+	// ---- C13 ----
+	v := "consensus/validation.go"
+	a := "consensus/application.go"
+	mut("C13", "consensus.ApplyBlock adjusts the difficulty itself after ApplyHeader", true, "pow-writers",
+		Edit{a, "\ts = ApplyHeader(s, b.Header(), targetTimestamp)\n\treturn s, ApplyUpdate{", "\ts = ApplyHeader(s, b.Header(), targetTimestamp)\n\ts.Difficulty = s.Difficulty.add(Work{})\n\treturn s, ApplyUpdate{"})
+	mut("C13", "ValidateHeader: work comparison < becomes <=", true, "meets-target", Edit{v, "} else if bh.ID().CmpWork(s.PoWTarget()) < 0 {", "} else if bh.ID().CmpWork(s.PoWTarget()) <= 0 {"})
+	mut("C13", "ValidateHeader: nonce-factor test dropped", true, "nonce-factor", Edit{v, "\t} else if bh.Nonce%s.NonceFactor() != 0 {\n\t\treturn errors.New(\"nonce not divisible by required factor\")\n", ""})
+	mut("C13", "ValidateOrphan no longer validates the header", true, "@consensus.ValidateOrphan", Edit{v, "\t} else if err := ValidateHeader(s, b.Header()); err != nil {\n\t\treturn fmt.Errorf(\"block has %w\", err)\n\t}", "\t}"})
+	mut("C13", "PoWTarget always derived from Difficulty", true, "PoWTarget", Edit{"consensus/state.go", "\tif s.childHeight() < s.Network.HardforkV2.FinalCutHeight {\n\t\treturn s.ChildTarget\n\t}\n\treturn invTarget(s.Difficulty.n)", "\treturn invTarget(s.Difficulty.n)"})
+	mut("C13", "final-cut adjustment loses the floor of one", true, "clamp-shape", Edit{a, "\tnewDifficulty = newDifficulty.max(s.Difficulty.sub(maxAdjust))\n\n\treturn newDifficulty.max(oneWork) // difficulty cannot be 0", "\treturn newDifficulty.max(s.Difficulty.sub(maxAdjust))"})
+	mut("C13", "median-time test uses After", true, "median-time", Edit{v, "} else if bh.Timestamp.Before(s.medianTimestamp()) {", "} else if s.medianTimestamp().Before(bh.Timestamp) {"})
+}
